@@ -366,11 +366,42 @@ def reply_graph(f):
             except Exception:  # noqa: BLE001
                 pass
             r = f()
+        shared = shared_cells(r)
+        if shared:
+            from harness import gen as _gen
+            _gen._FAILURES.append(f'a derived graph ({getattr(f, "__name__", "call")}) came back with two of its parts sharing a '
+                                  f'metadata container: {shared}')
     except RecursionError:
         raise
     except Exception as e:  # noqa: BLE001 - the class of ANY exception is the observation
         return None, 'err ' + type(e).__name__
     return r, 'ok ' + impl.enc_graph(r)
+
+
+def shared_cells(x):
+    """distinct nodes and edges of a derived graph never share a metadata container (top-level or nested): the first pair of
+    parts that do, or None"""
+    def containers(o, acc):
+        if isinstance(o, (dict, list)):
+            if id(o) in acc:
+                return
+            acc[id(o)] = o
+            for v in (o.values() if isinstance(o, dict) else o):
+                containers(v, acc)
+    try:
+        owner = {}
+        cells = [('graph metadata', x.meta)] + [('node ' + repr(n.identifier), n.meta) for n in x.get_nodes()] + \
+                [('edge ' + repr(e.get_edge_pair()), e.meta) for e in x.get_edges()]
+        for name, m in cells:
+            acc = {}
+            containers(m, acc)
+            for i in acc:
+                if i in owner and owner[i] != name:
+                    return f'{owner[i]} and {name}'
+                owner[i] = name
+    except Exception:  # noqa: BLE001
+        return None
+    return None
 
 
 def vandalise(x):
